@@ -21,7 +21,7 @@ Definition RPAR : Z := 41%Z.
 Definition MAX_MULTI : Z := 2147483647%Z.  (* --multi without a limit *)
 
 Inductive layout := LDefault | LReverse | LReverseList.
-Inductive info_style := IDefault | IInline | IHidden.
+Inductive info_style := IDefault | IInline | IHidden | IInlineRight.
 
 Record cfg := mkCfg {
   c_w : nat;                 (* window width  (columns) *)
@@ -36,6 +36,7 @@ Record cfg := mkCfg {
 
 (* what is to be shown *)
 Record view := mkView {
+  v_prompt : str;                 (* the prompt string ("> " unless --prompt / change-prompt) *)
   v_query : str;
   v_matches : list (nat * str);   (* result list in rank order: (item index, text) *)
   v_total : nat;                  (* number of items read *)
@@ -85,30 +86,45 @@ Definition info_tail (c : cfg) (maxw : nat) (out : str) : str :=
   trim_msg maxw out ++
   (if 0 <? fill then SP :: (if c_sep c then repeat DASH fill ++ [SP] else []) else []).
 
-Definition prompt_text (v : view) : str := [GT; SP] ++ v_query v.
+Definition prompt_text (v : view) : str := v_prompt v ++ v_query v.
 
 (* rows before the list: prompt (+ info or separator row) *)
 Definition prompt_lines (c : cfg) : nat :=
   match c_info c with
   | IDefault => 2
   | IInline => 1
-  | IHidden => if c_sep c then 2 else 1
+  | IHidden | IInlineRight => if c_sep c then 2 else 1
   end.
 Definition nheader (c : cfg) : nat := length (c_header c) + length (c_hlines c).
 Definition max_items (c : cfg) : nat := c_h c - nheader c - prompt_lines c.
 
 (* contents *)
+(* inline-right: the counter is flushed right on the prompt row (last column free), after at least two blanks *)
+Definition inline_right_col (c : cfg) (v : view) : nat :=
+  let pos := length (prompt_text v) + 1 in
+  let x := Nat.max pos (c_w c - length (info_text c v) - 3) in
+  let x1 := if x <? c_w c then S x else x in
+  if x1 <? c_w c - 1 then S x1 else x1.
+(* the counter as it is shown: cut with dots when the row is too narrow for it *)
+Definition info_shown (c : cfg) (v : view) : str :=
+  match c_info c with
+  | IDefault => trim_msg (c_w c - 3) (info_text c v)
+  | IInline => trim_msg (c_w c - (length (prompt_text v) + 1 + 3) - 1) (info_text c v)
+  | IInlineRight => trim_msg (c_w c - inline_right_col c v - 1) (info_text c v)
+  | IHidden => []
+  end.
 Definition prompt_row_text (c : cfg) (v : view) : row :=
   match c_info c with
   | IInline =>
-      let pos := 2 + length (v_query v) + 1 in
+      let pos := length (prompt_text v) + 1 in
       pad (c_w c) (pad pos (prompt_text v) ++ [SP; LT; SP] ++ info_tail c (c_w c - (pos + 3) - 1) (info_text c v))
+  | IInlineRight => pad (c_w c) (pad (inline_right_col c v) (prompt_text v) ++ info_shown c v)
   | _ => pad (c_w c) (prompt_text v)
   end.
 Definition info_row_text (c : cfg) (v : view) : row :=
   match c_info c with
   | IDefault => pad (c_w c) ([SP; SP] ++ info_tail c (c_w c - 3) (info_text c v))
-  | IHidden => pad (c_w c) (repeat DASH (c_w c - 1))
+  | IHidden | IInlineRight => pad (c_w c) (repeat DASH (c_w c - 1))
   | IInline => blank (c_w c)
   end.
 Definition header_row_text (c : cfg) (h : str) : row := pad (c_w c) ([SP; SP] ++ trunc (c_w c - 3) h).
@@ -152,7 +168,12 @@ Definition row_at (scr : list row) (r : nat) : row := nth r scr [].
 
 (* the window is big enough for prompt, info and header, the prompt fits *)
 Definition cfg_ok (c : cfg) : Prop := 4 <= c_w c /\ prompt_lines c + nheader c <= c_h c.
-Definition view_ok (c : cfg) (v : view) : Prop := length (v_query v) + 3 <= c_w c.
+Definition view_ok (c : cfg) (v : view) : Prop :=
+  length (v_prompt v) + 2 <= c_w c /\
+  match c_info c with
+  | IInline | IInlineRight => length (prompt_text v) + 5 <= c_w c   (* room for the inline counter *)
+  | _ => length (prompt_text v) + 1 <= c_w c
+  end.
 
 (* a faithful screen *)
 Definition shows_prompt (c : cfg) (v : view) (scr : list row) : Prop :=
@@ -181,8 +202,25 @@ Definition row_eqb (a b : row) : bool := str_eqb (rstrip a) (rstrip b).
 Definition in_window (count maxl cy off : nat) : Prop :=
   cy < count /\ off <= cy /\ cy < off + maxl /\ (off + maxl <= count \/ off = 0).
 
+(* the counter is visible on the row the info style dictates (nothing to show under --info=hidden) *)
+Fixpoint prefixb (a b : str) : bool :=
+  match a, b with
+  | [], _ => true
+  | x :: a', y :: b' => (x =? y)%Z && prefixb a' b'
+  | _ :: _, [] => false
+  end.
+Fixpoint containsb (needle hay : str) : bool :=
+  prefixb needle hay || match hay with [] => false | _ :: h => containsb needle h end.
+Definition counter_row (c : cfg) : nat :=
+  match c_info c with IDefault => info_row c | _ => prompt_row c end.
+Definition info_visibleb (c : cfg) (v : view) (scr : list row) : bool :=
+  match c_info c with
+  | IHidden => true
+  | _ => containsb (info_shown c v) (row_at scr (counter_row c))
+  end.
+
 (* executable version of `faithful` for captured screens: the numbers of the clauses that fail
-   1 height, 2 prompt row, 3 info row, 100+i list slot i, 1000+k --header line k, 2000+k --header-lines line k,
+   1 height, 2 prompt row, 3 info row, 4 counter visible on its row, 100+i list slot i, 1000+k --header line k, 2000+k --header-lines line k,
    5000+r row r wider than the window *)
 Definition chk (code : Z) (b : bool) : list Z := if b then [] else [code].
 Fixpoint chk_rows (w : nat) (r : nat) (scr : list row) : list Z :=
@@ -199,6 +237,7 @@ Definition check_faithful (c : cfg) (v : view) (scr : list row) : list Z :=
   chk 1%Z (length scr =? c_h c) ++
   chk 2%Z (row_eqb (row_at scr (prompt_row c)) (prompt_row_text c v)) ++
   (if prompt_lines c =? 2 then chk 3%Z (row_eqb (row_at scr (info_row c)) (info_row_text c v)) else []) ++
+  chk 4%Z (info_visibleb c v scr) ++
   concat (map (fun i => chk (100 + Z.of_nat i)%Z (row_eqb (row_at scr (list_row c i)) (list_slot_text c v i))) (seq 0 (max_items c))) ++
   chk_headers 1000%Z (header_row c) c scr 0 (c_header c) ++
   chk_headers 2000%Z (hline_row c) c scr 0 (c_hlines c) ++
